@@ -8,10 +8,11 @@ cd $wt || exit 2
 git diff -- py7zr > $out/patch.diff
 echo "== tests with patch"; PYTHONPATH=$wt /venv/bin/python -m pytest -q -p no:cacheprovider --timeout=900 -x -n 8 2>&1 | tail -1
 rm -f tests/data/test_multiple.7z
-echo "== demo with patch"; (cd seed && PYTHONPATH=$wt timeout 300 /venv/bin/python demo.py > $out/demo_with.log 2>&1; echo "exit $?")
-git stash -q
-echo "== demo without patch"; (cd seed && PYTHONPATH=$wt timeout 300 /venv/bin/python demo.py > $out/demo_without.log 2>&1; echo "exit $?")
-git stash pop -q
+echo "== demo with patch"; (cd seed && PYTHONPATH=$wt timeout 600 /venv/bin/python demo.py > $out/demo_with.log 2>&1; echo "exit $?")
+# (no git stash: the stash stack is shared by all worktrees of a repository)
+git apply -R $out/patch.diff
+echo "== demo without patch"; (cd seed && PYTHONPATH=$wt timeout 600 /venv/bin/python demo.py > $out/demo_without.log 2>&1; echo "exit $?")
+git apply $out/patch.diff
 cd /verif
 for id in "$@"; do
   echo "== check $id against patched tree"
